@@ -34,3 +34,25 @@ func zzConfiguredInterval() {
 		zzsymCover("option_stored")
 	}
 }
+
+// Wiring of the two retransmission options into what the FSMs read: newConnConfigValues + newHandshakeConfig
+// give HandshakeConfig.InitialRetransmitInterval = effectiveFlightInterval(configured) and
+// DisableRetransmitBackoff exactly as configured, for every 64-bit configured interval and both settings of the
+// backoff switch (the FSM entries start from these two fields).
+//
+//symgo:entry covers=wired_backoff_on,wired_backoff_off
+func zzRetransmitOptionsWiring() {
+	cfg := &dtlsConfig{}
+	cfg.FlightInterval = time.Duration(zzsymI64("flightInterval"))
+	cfg.DisableRetransmitBackoff = zzsymChoice("disable_backoff", 2) == 1
+	values, err := newConnConfigValues(cfg)
+	zzsymAssert(err == nil, "wiring_config_values_ok")
+	hc := newHandshakeConfig(cfg, values, nil)
+	zzsymAssert(hc.InitialRetransmitInterval == effectiveFlightInterval(cfg.FlightInterval), "wiring_initial_retransmit_interval")
+	zzsymAssert(hc.DisableRetransmitBackoff == cfg.DisableRetransmitBackoff, "wiring_disable_backoff_as_configured")
+	if cfg.DisableRetransmitBackoff {
+		zzsymCover("wired_backoff_off")
+	} else {
+		zzsymCover("wired_backoff_on")
+	}
+}
